@@ -136,6 +136,9 @@ var templates = []template{
 	{[]taskDef{{"A", []string{"src/*"}, nil}, {"B", []string{"src/*"}, []string{"A"}}}, []int{2, 3}},
 	// 10: a literal dependency whose name has glob meta-characters (but no `*`), next to a plain one
 	{[]taskDef{{"A", []string{"q[x]{y,z}?.t", "b"}, nil}}, []int{6, 1}},
+	// 11: a glob whose last segment also matches the hidden directories at the top of the project (.hid, and .spok from the
+	// first run on), next to a literal in a subdirectory: hidden entries are left out, their neighbours are not
+	{[]taskDef{{"A", []string{"*", "src/x"}, nil}}, []int{0, 2}},
 }
 
 func (t template) text() string {
@@ -627,7 +630,7 @@ func startOnOneCPU(cmd *exec.Cmd) error {
 	return cmd.Start()
 }
 
-func invokeBinary(sb *sandbox, sel, req []string, force bool, cs crashSpec, fail map[string]bool, oneCPU bool) invocation {
+func invokeBinary(sb *sandbox, sel, req []string, force bool, cs crashSpec, fail map[string]bool, oneCPU, subdir bool) invocation {
 	inv := invocation{crash: "-"}
 	_ = os.WriteFile(sb.log, nil, 0o644)
 	_ = os.Remove(filepath.Join(sb.ctl, "killed"))
@@ -664,6 +667,9 @@ func invokeBinary(sb *sandbox, sel, req []string, force bool, cs crashSpec, fail
 		ctx, cancel := context.WithTimeout(context.Background(), 15*time.Second)
 		cmd := exec.CommandContext(ctx, sb.spok, argv...)
 		cmd.Dir = sb.proj
+		if subdir {
+			cmd.Dir = filepath.Join(sb.proj, "src")
+		}
 		cmd.Env = env
 		cmd.Stdout, cmd.Stderr = &so, &se
 		if oneCPU {
@@ -855,6 +861,10 @@ func workCase(c string) string {
 		proj = filepath.Join(root, "pr[o]j{a,b}")
 	}
 	_ = os.MkdirAll(filepath.Join(proj, "src"), 0o755)
+	// a hidden directory at the top of every project (it sorts before every other entry, `.spok` included), holding a file
+	// called like a dependency: hidden entries are in no dependency set
+	_ = os.MkdirAll(filepath.Join(proj, ".hid"), 0o755)
+	_ = os.WriteFile(filepath.Join(proj, ".hid", "a"), []byte("v1"), 0o644)
 	for _, f := range []int{0, 1, 2} {
 		_ = os.WriteFile(filepath.Join(proj, files[f]), []byte("v1"), 0o644)
 	}
@@ -930,10 +940,11 @@ func workCase(c string) string {
 				effects[p[1]] = [2]string{p[2], p[3]}
 			}
 		case "r":
-			if len(p) != 4 && !(len(p) == 5 && p[4] == "c1") {
+			if len(p) != 4 && !(len(p) == 5 && (p[4] == "c1" || p[4] == "sd")) {
 				return "BAD-CASE"
 			}
-			oneCPU := len(p) == 5 // binary mode: the process sees ONE cpu (runtime.NumCPU() == 1), as in a small container
+			oneCPU := len(p) == 5 && p[4] == "c1" // binary mode: the process sees ONE cpu (runtime.NumCPU() == 1), as in a small container
+			subdir := len(p) == 5 && p[4] == "sd" // binary mode: spok is started in <project>/src and finds the spokfile by climbing
 			var req []string
 			for _, ch := range p[1] {
 				req = append(req, string(ch))
@@ -983,7 +994,7 @@ func workCase(c string) string {
 			}
 			var inv invocation
 			if binary {
-				inv = invokeBinary(sb, sel, req, force, cs, fail, oneCPU)
+				inv = invokeBinary(sb, sel, req, force, cs, fail, oneCPU, subdir)
 			} else {
 				inv = invokeInProc(text, proj, sel, req, force, cs, fail, onCall)
 			}
@@ -1142,6 +1153,7 @@ var alpha = map[int]alphabet{
 	8: {[]string{"d.2", "w.2.1", "w.2.3", "w.3.3", "d.3"}, runsOf([]string{"A"})},
 	9: {[]string{"w.2.1", "w.2.2", "x.A.2.2", "x.A.2.1", "f.B"}, runsOf([]string{"B", "A"})},
 	10: {[]string{"w.6.1", "w.6.2", "d.6", "w.1.2", "w.1.1"}, runsOf([]string{"A"})},
+	11: {[]string{"w.0.1", "w.0.2", "d.0", "w.2.2", "w.2.1"}, runsOf([]string{"A"})},
 }
 
 // all histories of exactly `depth` events whose last event is a run (their prefixes are checked on the way)
@@ -1399,6 +1411,9 @@ func gen(w *bufio.Writer, args map[string]string) {
 			}
 			fmt.Fprintf(w, "T%db r.%s.0.- r.%s.0.-.c1 r.%s.0.-\n", t, all, all, all)
 			fmt.Fprintf(w, "T%db r.%s.0.-.c1 r.%s.0.- w.0.2 r.%s.0.-.c1 r.%s.0.-\n", t, all, all, all, all)
+			// … and started from different directories of the project (the spokfile is found by climbing)
+			fmt.Fprintf(w, "T%db r.%s.0.- r.%s.0.-.sd r.%s.0.-\n", t, all, all, all)
+			fmt.Fprintf(w, "T%db r.%s.0.-.sd r.%s.0.- w.0.2 r.%s.0.-.sd r.%s.0.-\n", t, all, all, all, all)
 		}
 	}
 
@@ -1475,6 +1490,7 @@ func gen(w *bufio.Writer, args map[string]string) {
 			exhaustive(w, 8, 7)
 			exhaustive(w, 9, 5)
 			exhaustive(w, 10, 6)
+			exhaustive(w, 11, 6)
 			if prop == "C01" {
 				crashFamily(w, 2, 2, 8, quickTears, 1)
 			}
@@ -1487,6 +1503,7 @@ func gen(w *bufio.Writer, args map[string]string) {
 			exhaustive(w, 8, 6)
 			exhaustive(w, 9, 4) // commands that rewrite the files a later task of the same run depends on
 			exhaustive(w, 10, 5)
+			exhaustive(w, 11, 5)
 			if prop == "C01" {
 				crashFamily(w, 2, 1, 8, quickTears, 2)
 			} else {
